@@ -59,6 +59,10 @@ func c18hookA(c c18case) string {
 
 const c18hookB = "configVersion: v1\nkubernetes:\n- name: kfree\n  kind: ConfigMap\n  queue: qb\n  namespace: {nameSelector: {matchNames: [n2]}}\n"
 
+// shape "shared": the hook without settings is bound to the same objects and shares the queue of
+// the throttled hook, so that their tasks alternate in that queue (and are not combined)
+const c18hookBshared = "configVersion: v1\nkubernetes:\n- name: kfree\n  kind: ConfigMap\n  queue: qa\n  namespace: {nameSelector: {matchNames: [n1]}}\n"
+
 type c18obs struct {
 	fx      *fixture
 	Case    c18case
@@ -71,7 +75,11 @@ type c18obs struct {
 
 func c18body(c c18case, obs *c18obs) func(x *vrt.Exec) {
 	return func(x *vrt.Exec) {
-		fx := newFixture([]fxHook{{Name: "a.sh", Config: c18hookA(c)}, {Name: "b.sh", Config: c18hookB}})
+		hookB := c18hookB
+		if c.Shape == "shared" {
+			hookB = c18hookBshared
+		}
+		fx := newFixture([]fxHook{{Name: "a.sh", Config: c18hookA(c)}, {Name: "b.sh", Config: hookB}})
 		obs.fx, obs.Case = fx, c
 		defer fx.close()
 		hub := &kubeeventsmanager.ZZHub{}
@@ -200,6 +208,9 @@ func c18check(obs *c18obs) (string, string) {
 		}
 	}
 	for i, at := range obs.Arrive {
+		if c.Shape == "shared" {
+			break // in a shared queue the hook without settings waits behind the throttled one
+		}
 		k := fmt.Sprintf("kfree/Event/v%d/Modified", i+1)
 		if st, ok := last[k]; ok && st > at+300*time.Millisecond {
 			return "C18 unthrottled-hook-delayed", fmt.Sprintf("the hook without settings got %s at +%s, the change happened at +%s", k, st, at)
@@ -279,6 +290,10 @@ func TestVerifC18(t *testing.T) {
 		}
 		for _, gaps := range [][]int{{0}, {0, 0}, {1, 0}, {4}} {
 			cases = append(cases, c18case{cf.I, cf.B, gaps, 0, 0, "multi"}, c18case{cf.I, cf.B, gaps, 0, 0, "twoq"})
+		}
+		// a backlog in a shared queue: several changes at once, the two hooks' tasks alternate
+		for _, gaps := range [][]int{{0, 0, 0, 0}, {0, 0, 0, 0, 0, 0}, {1, 0, 0, 0}} {
+			cases = append(cases, c18case{cf.I, cf.B, gaps, 0, 0, "shared"})
 		}
 	}
 	// failing runs: retries are executions as well and must respect the limit (interval longer than the back-off)
